@@ -14,11 +14,13 @@ Local Open Scope Z_scope.
 (* the magnitude bound                                                 *)
 (* ------------------------------------------------------------------ *)
 
-(* apd refuses results whose adjusted exponent exceeds 100000.  All totality / re-parsing facts are
-   stated for amounts below BOUND units (10^98994 credits). *)
-Definition BOUND : Z := 10 ^ 99000.
+(* apd refuses results whose adjusted exponent (exponent + digits - 1) exceeds 100000.  For an amount with
+   exponent in [-6, 0] this says exactly: fewer than BOUND = 10^100007 units (10^100001 credits).  So
+   [U d < BOUND] is "d is representable", and every amount that is the Ok result of an addition, a
+   subtraction satisfies it (add_gen_result_bound below). *)
+Definition BOUND : Z := 10 ^ 100007.
 
-Lemma BOUND_eq : BOUND = 10 ^ 99000.
+Lemma BOUND_eq : BOUND = 10 ^ 100007.
 Proof. unfold BOUND. reflexivity. Qed.
 
 Global Opaque BOUND.
@@ -26,19 +28,42 @@ Global Opaque BOUND.
 Lemma BOUND_pos : 0 < BOUND.
 Proof. rewrite BOUND_eq. apply pow10_gt0. clear. lia. Qed.
 
-Lemma BOUND_le_max : BOUND <= 10 ^ 100000.
-Proof. rewrite BOUND_eq. apply pow10_le. clear. lia. Qed.
-
-Lemma num_digits_BOUND c : 0 <= c -> c < BOUND -> num_digits c <= 99000.
+Lemma BOUND_split k : 0 <= k <= 100007 -> BOUND = 10 ^ (100007 - k) * 10 ^ k.
 Proof.
-  intros H0 H1. rewrite BOUND_eq in H1. apply (num_digits_le c 99000).
-  - split; [exact H0 | exact H1].
-  - clear. lia.
+  intros Hk. rewrite BOUND_eq. rewrite <- pow10_add by (clear - Hk; lia).
+  f_equal. clear - Hk. lia.
 Qed.
 
-(* every supply row is below the bound.  Market handlers and pruning never increase a tradable supply,
-   so this is trivially preserved by them; issuance (create batch / mint / bridge receive) is where a
-   caller has to re-establish it. *)
+(* digits of a coefficient whose scaled value is below the bound *)
+Lemma nd_bound c k : 0 <= c -> 0 <= k <= 6 -> c * 10 ^ k < BOUND -> num_digits c + k <= 100007.
+Proof.
+  intros Hc Hk Hb. rewrite (BOUND_split k) in Hb by (clear - Hk; lia).
+  assert (Hp : 0 < 10 ^ k) by (apply pow10_gt0; lia).
+  assert (Hlt : c < 10 ^ (100007 - k)).
+  { apply (Z.mul_lt_mono_pos_r (10 ^ k)); [exact Hp | exact Hb]. }
+  assert (Hn : num_digits c <= 100007 - k).
+  { apply num_digits_le; [split; [exact Hc | exact Hlt] | clear - Hk; lia]. }
+  clear - Hn. lia.
+Qed.
+
+(* and conversely: a decimal within apd's exponent limits is below the bound *)
+Lemma bound_of_adj c e :
+  0 <= c -> - P <= e <= 0 -> e + num_digits c - 1 <= max_exponent -> c * 10 ^ (e + P) < BOUND.
+Proof.
+  intros Hc He Hadj. unfold P, max_exponent in *.
+  destruct (Z.eq_dec c 0) as [->|Hnz]; [rewrite Z.mul_0_l; apply BOUND_pos|].
+  assert (Hc' : 0 < c) by lia. pose proof (num_digits_spec c Hc') as [_ Hlt].
+  pose proof (num_digits_ge1 c) as Hge.
+  rewrite (BOUND_split (e + 6)) by (clear - He; lia).
+  assert (Hp : 0 < 10 ^ (e + 6)) by (apply pow10_gt0; lia).
+  apply Z.mul_lt_mono_pos_r; [exact Hp|].
+  assert (Hle : 10 ^ num_digits c <= 10 ^ (100007 - (e + 6))) by (apply pow10_le; clear - Hadj Hge He; lia).
+  clear - Hlt Hle. set (X := 10 ^ num_digits c) in *. set (Y := 10 ^ (100007 - (e + 6))) in *. clearbody X Y. lia.
+Qed.
+
+(* every supply row is representable.  Market handlers and pruning never increase a tradable supply, so
+   they preserve this trivially; everywhere else it holds because each stored amount is the Ok result of
+   an addition (see add_gen_result_bound). *)
 Definition Inv_bound (s : state) : Prop :=
   forall k su, supplies s !! k = Some su -> U (su_tradable su) < BOUND.
 
@@ -75,21 +100,14 @@ Proof.
   rewrite (Hn eq_refl). reflexivity.
 Qed.
 
-(* exponent of a positive amount below the bound *)
-Lemma exp_lt_of_bound d : in_ok d -> 0 < U d -> U d < BOUND -> dexp d + P < 99000.
+Lemma U_nonneg_form d : in_ok d -> U d = dcoef d * 10 ^ (dexp d + P).
 Proof.
-  intros Hok Hp Hb. destruct (in_ok_pos_noneg d Hok Hp) as [Hn Hc].
-  destruct Hok as (_ & _ & He).
-  destruct (Z_lt_le_dec (dexp d + P) 99000) as [Hlt|Hge]; [exact Hlt|exfalso].
-  assert (H2 : 10 ^ (dexp d + P) <= U d).
-  { unfold U, units, dint. rewrite Hn. assert (0 < 10 ^ (dexp d + P)) by (apply pow10_gt0; lia). nia. }
-  assert (H1 : BOUND <= 10 ^ (dexp d + P)).
-  { rewrite BOUND_eq. apply pow10_le. split; [clear; lia | exact Hge]. }
-  clear - H1 H2 Hb. set (Y := 10 ^ (dexp d + P)) in *. clearbody Y. lia.
+  intros (Hc & Hn & He). unfold U, units, dint. destruct (dneg d) eqn:E; [|reflexivity].
+  rewrite (Hn eq_refl). reflexivity.
 Qed.
 
 Lemma round0_ok_bound neg c e :
-  - P <= e <= 0 -> 0 <= c -> c < BOUND -> round0 (mkDec neg c e) = Ok (mkDec neg c e).
+  - P <= e <= 0 -> 0 <= c -> c * 10 ^ (e + P) < BOUND -> round0 (mkDec neg c e) = Ok (mkDec neg c e).
 Proof.
   intros He Hc Hb. unfold round0. cbn [dexp].
   rewrite DecIface.set_exponent_ok.
@@ -97,18 +115,40 @@ Proof.
   - cbn [forallb]. unfold exp_in_limits, min_exponent, max_exponent. rewrite andb_true_r.
     apply andb_true_iff. unfold P in He. split; apply Z.leb_le; lia.
   - rewrite zsum_single. cbn [dcoef].
-    pose proof (num_digits_BOUND c Hc Hb). pose proof (num_digits_ge1 c).
-    unfold min_exponent, max_exponent. unfold P in He. clear Hb. lia.
+    pose proof (nd_bound c (e + P) Hc ltac:(unfold P in *; lia) Hb). pose proof (num_digits_ge1 c).
+    unfold min_exponent, max_exponent. unfold P in *. clear Hb. lia.
 Qed.
 
-(* add / sub succeed below the bound: x is a stored amount, y a positive gated amount *)
+(* results of the library operations are representable *)
+Lemma set_exponent_result_bound d xs z :
+  0 <= dcoef d -> set_exponent d xs = Ok z -> - P <= dexp z <= 0 -> dcoef z * 10 ^ (dexp z + P) < BOUND.
+Proof.
+  intros Hc H He. apply set_exponent_inv in H. destruct H as (_ & H2 & H3 & _ & H5).
+  apply bound_of_adj; [rewrite H2; exact Hc | exact He |]. rewrite H2, H3. lia.
+Qed.
+
+Lemma add_gen_result_bound subtract x y z :
+  in_ok x -> in_ok y -> dexp x <= 0 -> add_gen subtract x y = Ok z -> Z.abs (U z) < BOUND.
+Proof.
+  intros Hx Hy Hex H. pose proof Hx as (Hcx & _ & Hex'). pose proof Hy as (Hcy & _ & Hey').
+  pose proof (add_gen_units subtract x y z Hcx Hcy Hex' Hey' H) as (Hcz & Hez & _).
+  assert (He : - P <= dexp z <= 0) by (rewrite Hez; lia).
+  unfold add_gen in H. cbv zeta in H. destruct (_ >? _); [discriminate|].
+  destruct (if Bool.eqb _ _ then _ else _) as [neg coef]. unfold round0 in H.
+  assert (Hb : dcoef z * 10 ^ (dexp z + P) < BOUND).
+  { eapply set_exponent_result_bound; [|exact H|exact He]. cbn [dcoef].
+    apply set_exponent_inv in H. destruct H as (_ & H2 & _). cbn [dcoef] in H2. rewrite <- H2. exact Hcz. }
+  assert (0 <= dcoef z * 10 ^ (dexp z + P)) by (apply Z.mul_nonneg_nonneg; [lia | apply Z.pow_nonneg; lia]).
+  unfold U, units, dint. destruct (dneg z); [rewrite Z.mul_opp_l, Z.abs_opp|]; rewrite Z.abs_eq by assumption; exact Hb.
+Qed.
+
+(* add / sub succeed below the bound: x is a stored amount, y a positive gated amount without positive exponent *)
 Lemma add_gen_total subtract x y :
-  stored_ok x -> in_ok y -> 0 < U y -> U x < BOUND -> U y < BOUND ->
+  stored_ok x -> in_ok y -> dexp y <= 0 -> 0 < U y -> U x < BOUND -> U y < BOUND ->
   (subtract = false -> U x + U y < BOUND) ->
   exists z, add_gen subtract x y = Ok z.
 Proof.
-  intros (Hcx & Hnx & Hex & Hex0) Hy Hpy Hbx Hby Hsum.
-  pose proof (exp_lt_of_bound y Hy Hpy Hby) as Hey.
+  intros (Hcx & Hnx & Hex & Hex0) Hy Hey Hpy Hbx Hby Hsum.
   destruct (in_ok_pos_noneg y Hy Hpy) as [Hny Hcy].
   destruct Hy as (_ & _ & Hey0).
   unfold add_gen. cbv zeta.
@@ -130,21 +170,18 @@ Proof.
   assert (HUy : U y = c * 10 ^ (e + P)).
   { unfold U, units, dint, c. replace (dexp y + P) with ((dexp y - e) + (e + P)) by lia.
     rewrite pow10_split by lia. rewrite Hny. ring. }
-  assert (Hax : a <= U x) by (rewrite HUx; clear - Ha Hp1; nia).
-  assert (Hcy' : c <= U y) by (rewrite HUy; clear - Hc Hp1; nia).
-  assert (Hac : a + c <= U x + U y) by lia.
   assert (Hxa : dneg x = true -> a = 0) by (intros En; unfold a; rewrite (Hnx En); ring).
-  clearbody a c e.
-  assert (Hfin : forall neg coef, 0 <= coef -> coef < BOUND ->
+  assert (Hfin : forall neg coef, 0 <= coef -> coef * 10 ^ (e + P) < BOUND ->
             exists z, round0 (mkDec neg coef e) = Ok z).
   { intros neg coef H0 H1. eexists. apply round0_ok_bound; assumption. }
+  set (p := 10 ^ (e + P)) in *. clearbody a c p. clear Hex' Hey'. clearbody e.
   rewrite Hny. cbn [xorb].
   destruct subtract.
   - (* subtraction: coefficient at most max a c *)
     destruct (dneg x) eqn:En; cbn [Bool.eqb xorb negb].
     + rewrite (Hxa eq_refl). apply Hfin; lia.
-    + destruct (a - c <? 0) eqn:E1; [apply Z.ltb_lt in E1; apply Hfin; lia|].
-      apply Z.ltb_ge in E1. destruct (a - c =? 0); apply Hfin; lia.
+    + destruct (a - c <? 0) eqn:E1; [apply Z.ltb_lt in E1; apply Hfin; nia|].
+      apply Z.ltb_ge in E1. destruct (a - c =? 0); apply Hfin; nia.
   - specialize (Hsum eq_refl).
     destruct (dneg x) eqn:En; cbn [Bool.eqb xorb negb].
     + rewrite (Hxa eq_refl).
@@ -154,11 +191,11 @@ Proof.
 Qed.
 
 Lemma safe_sub_total x y :
-  stored_ok x -> in_ok y -> 0 < U y -> U y <= U x -> U x < BOUND ->
+  stored_ok x -> in_ok y -> dexp y <= 0 -> 0 < U y -> U y <= U x -> U x < BOUND ->
   exists z, safe_sub_balance x y = Ok z.
 Proof.
-  intros Hx Hy Hpy Hle Hb.
-  destruct (add_gen_total true x y Hx Hy Hpy Hb) as [z Hz]; [lia | discriminate |].
+  intros Hx Hy Hey Hpy Hle Hb.
+  destruct (add_gen_total true x y Hx Hy Hey Hpy Hb) as [z Hz]; [lia | discriminate |].
   unfold safe_sub_balance. rewrite Hz. cbn [bind].
   pose proof (stored_in_ok _ Hx) as Hx'.
   pose proof (sub_units x y z Hx' Hy Hz) as (_ & _ & _ & Hin).
@@ -166,12 +203,12 @@ Proof.
 Qed.
 
 Lemma safe_add_total x y :
-  stored_ok x -> in_ok y -> 0 < U y -> U x + U y < BOUND ->
+  stored_ok x -> in_ok y -> dexp y <= 0 -> 0 < U y -> U x + U y < BOUND ->
   exists z, safe_add_balance x y = Ok z.
 Proof.
-  intros Hx Hy Hpy Hb.
+  intros Hx Hy Hey Hpy Hb.
   pose proof (stored_in_ok _ Hx) as Hx'. pose proof (in_ok_U_nonneg x Hx').
-  destruct (add_gen_total false x y Hx Hy Hpy) as [z Hz]; [lia | lia | intros _; exact Hb |].
+  destruct (add_gen_total false x y Hx Hy Hey Hpy) as [z Hz]; [lia | lia | intros _; exact Hb |].
   unfold safe_add_balance. rewrite (in_ok_not_negative x Hx'), (in_ok_not_negative y Hy). cbn [orb]. eauto.
 Qed.
 
@@ -194,28 +231,24 @@ Proof.
   intros (Ha & _ & Hea) (Hc & _ & Hec). unfold U. apply cmp_units; lia.
 Qed.
 
-(* rendering then re-parsing keeps the unit count, below the bound *)
+(* rendering then re-parsing keeps the unit count and leaves no positive exponent, below the bound *)
 Lemma reparse_units d : in_ok d -> U d < BOUND ->
-  exists d', parse (to_string d) = Ok d' /\ in_ok d' /\ U d' = U d.
+  exists d', parse (to_string d) = Ok d' /\ in_ok d' /\ U d' = U d /\ dexp d' <= 0.
 Proof.
-  intros Hok Hb. pose proof (coef_le_U d Hok) as Hcu. pose proof Hok as (Hc & Hn & He).
+  intros Hok Hb. pose proof Hok as (Hc & Hn & He). rewrite (U_nonneg_form d Hok) in Hb.
   exists (reparsed d). split; [|].
   - apply parse_to_string_gen; [exact Hc|]. unfold reparse_ok.
     destruct (dexp d <=? 0) eqn:E.
     + apply Z.leb_le in E.
-      assert (Hcb : dcoef d < BOUND) by lia.
-      pose proof (num_digits_BOUND _ Hc Hcb). pose proof (num_digits_ge1 (dcoef d)).
-      unfold min_exponent, max_exponent. unfold P in He. clear Hb Hcb Hcu. lia.
+      pose proof (nd_bound (dcoef d) (dexp d + P) Hc ltac:(unfold P in *; lia) Hb). pose proof (num_digits_ge1 (dcoef d)).
+      unfold min_exponent, max_exponent. unfold P in *. clear Hb. lia.
     + apply Z.leb_gt in E.
       assert (H0 : 0 <= dcoef d * 10 ^ dexp d) by (apply Z.mul_nonneg_nonneg; [lia | apply Z.pow_nonneg; lia]).
-      assert (H1 : dcoef d * 10 ^ dexp d <= U d).
-      { unfold U, units, dint. destruct (dneg d) eqn:En; [rewrite (Hn eq_refl); cbn; lia|].
-        rewrite pow10_split by (unfold P; lia). assert (1 <= 10 ^ P) by (apply pow10_ge1'; unfold P; lia).
-        assert (0 < 10 ^ dexp d) by (apply pow10_gt0; lia). nia. }
-      assert (H2 : dcoef d * 10 ^ dexp d < BOUND) by lia.
-      pose proof (num_digits_BOUND _ H0 H2). unfold max_exponent. clear Hb H2 H1 Hcu. lia.
-  - unfold reparsed. destruct (dexp d <=? 0) eqn:E; [split; [exact Hok | reflexivity]|].
-    apply Z.leb_gt in E. split.
+      assert (H2 : dcoef d * 10 ^ dexp d * 10 ^ 6 < BOUND).
+      { rewrite <- Z.mul_assoc, <- pow10_split by lia. exact Hb. }
+      pose proof (nd_bound _ 6 H0 ltac:(lia) H2). unfold max_exponent. clear Hb H2. lia.
+  - unfold reparsed. destruct (dexp d <=? 0) eqn:E; [apply Z.leb_le in E; split; [exact Hok | split; [reflexivity | exact E]]|].
+    apply Z.leb_gt in E. split; [|split; [|cbn [dexp]; lia]].
     + split; cbn [dcoef dneg dexp]; [apply Z.mul_nonneg_nonneg; [lia | apply Z.pow_nonneg; lia]|].
       split; [intros Hn'; rewrite (Hn Hn'); ring | unfold P; lia].
     + unfold U, units, dint. cbn [dcoef dneg dexp]. rewrite Z.add_0_l.
